@@ -98,6 +98,18 @@ func (f *fakeNet) addIface(ifc fnIface) {
 	f.ifMu.Unlock()
 }
 
+func (f *fakeNet) removeIface(name string) {
+	f.ifMu.Lock()
+	var kept []fnIface
+	for _, ifc := range f.ifaces {
+		if ifc.Name != name {
+			kept = append(kept, ifc)
+		}
+	}
+	f.ifaces = kept
+	f.ifMu.Unlock()
+}
+
 func (f *fakeNet) hasIP(ip net.IP) bool {
 	f.ifMu.RLock()
 	defer f.ifMu.RUnlock()
